@@ -453,6 +453,13 @@ class AModel(Model):
             fhs = [t for t in subterms(dst) if t[0] == 'fh']
             p = fhs[0][1] if fhs else dst
             return self.prim(st, 'WRITE', (p, args[0] if args else NONE), line, ENC_TOKENS + IO_TOKENS, extra={'via': full})
+        # a serializer object kept on the instance or chosen at run time (self._pik.dump(memo, f)): anything.dump(obj, <open file handle>) writes the encoding of obj
+        if f[0] == 'attr' and f[2] == 'dump' and len(args) >= 2 and contains_term(args[1], lambda t: t[0] == 'fh'):
+            fhs = [t for t in subterms(args[1]) if t[0] == 'fh']
+            return self.prim(st, 'WRITE', (fhs[0][1], args[0]), line, ENC_TOKENS + IO_TOKENS, extra={'via': 'serializer.dump'})
+        if f[0] == 'attr' and f[2] == 'load' and len(args) >= 1 and contains_term(args[0], lambda t: t[0] == 'fh'):
+            fhs = [t for t in subterms(args[0]) if t[0] == 'fh']
+            return self.prim(st, 'READ', (fhs[0][1],), line, IO_TOKENS + [GENERIC], val=('ev', 'read', self.newid()), extra={'via': 'serializer.load'})
         if full in ('dill.source.getimportable',):
             return self.prim(st, 'ENCODE', tuple(args[:1]), line, ['AttributeError'] + ENC_TOKENS, val=('call', f, args, kws))
         if full == 'exec':
@@ -486,6 +493,13 @@ class AModel(Model):
             # pox.mkdir returns the absolute path of what it created
             rv = p if root is not None else ('call', ('lib', 'os.path.abspath'), (p,), ())
             return self.prim(st, 'MKDIR', (p,), line, IO_TOKENS, val=rv)
+        if full in ('tempfile.mkdtemp', 'tempfile.mkstemp'):
+            d_ = self.kwval(kws, 'dir')
+            pre_ = self.kwval(kws, 'prefix') or C('tmp')
+            fresh_ = ('bin', '+', pre_, ('call', ('lib', 'tempfile.random'), (), ()))
+            p_ = ('call', ('lib', 'os.path.join'), (d_, fresh_), ()) if d_ is not None and d_ != NONE else \
+                ('call', ('lib', 'os.path.join'), (('call', ('lib', 'tempfile.gettempdir'), (), ()), fresh_), ())
+            return self.prim(st, 'MKDIR' if full.endswith('mkdtemp') else 'OPENW', (p_,) if full.endswith('mkdtemp') else (p_, C('wb')), line, IO_TOKENS, val=p_)
         if full in ('os.mkdir', 'os.makedirs') and args:
             return self.prim(st, 'MKDIR', (args[0],), line, IO_TOKENS, val=NONE)
         if full in ('os.rmdir', 'os.removedirs') and args:
